@@ -553,12 +553,12 @@ Section Proofs.
       rewrite (F_none_up _ _ Hr HFx) in HF. discriminate.
   Qed.
 
-  (* walk_err: the state left behind when the callback raises at node x.  The stack keeps the
-     residue [res] of the traversal (the expanded ancestors of x and their pending children),
-     the memo keeps what was computed before the failure. *)
-  Theorem iter_walk_err : forall w root fuel, clean w -> enough_fuel root <= fuel ->
+  (* What the loop `_process_stack` leaves when the callback raises at node x: the residue of
+     the traversal (the expanded ancestors of x and their pending children) is still on the
+     stack.  This is why iter_walk has to drop the stack before re-raising. *)
+  Theorem process_stack_err : forall w root fuel, clean w -> enough_fuel root <= fuel ->
     F root = None ->
-    exists s x, iter_walk fuel w root = (s, Err (ECallback x)) /\
+    exists s x, run fuel (with_stk A w ((false, root) :: stk w)) = Failed (ECallback x) s /\
       Mok (mm s) /\ sub (mm w) (mm s) /\
       reach root x /\ F x = None /\ inm (mm s) x = false /\
       (forall c, In c (children x) -> inm (mm s) c = true) /\
@@ -567,7 +567,7 @@ Section Proofs.
   Proof.
     intros w root fuel [Hst Hm] Hfuel HF.
     destruct (process_false root (mm w) [] (calls w) (pops w) (log w) Hm) as (k & Hk).
-    unfold DagWalk.iter_walk. rewrite (start_state _ _ Hst).
+    rewrite (start_state _ _ Hst).
     destruct (steps k _) as [s'|e s'] eqn:E.
     - destruct Hk as (new & (_ & _ & _ & V2 & _) & _).
       destruct (V2 root (or_introl eq_refl)) as (v' & Hv' & _). congruence.
@@ -584,6 +584,22 @@ Section Proofs.
       split; [exact HFx|]. split; [exact Hx|]. split; [exact Hch|]. split.
       + intros b y Hy. rewrite S2 in Hy. destruct (Hres b y Hy) as (c & [<-|[]] & Hr'). exact Hr'.
       + rewrite S2. exact Hshape.
+  Qed.
+
+  (* iter_walk when the callback raises at node x: the stack is empty again, the memo keeps
+     what was computed before the failure (all of it correct) *)
+  Theorem iter_walk_err : forall w root fuel, clean w -> enough_fuel root <= fuel ->
+    F root = None ->
+    exists s x, iter_walk fuel w root = (s, Err (ECallback x)) /\
+      stk s = [] /\ Mok (mm s) /\ sub (mm w) (mm s) /\
+      reach root x /\ F x = None /\ inm (mm s) x = false /\
+      (forall c, In c (children x) -> inm (mm s) c = true).
+  Proof.
+    intros w root fuel Hc Hfuel HF.
+    destruct (process_stack_err w root fuel Hc Hfuel HF) as (s & x & Hrun & M & Sub & Hr & HFx & Hx & Hch & _).
+    unfold DagWalk.iter_walk. rewrite Hrun. exists (with_stk A s []), x. cbn [mm stk with_stk].
+    split; [reflexivity|]. split; [reflexivity|]. split; [exact M|]. split; [exact Sub|].
+    split; [exact Hr|]. split; [exact HFx|]. split; [exact Hx|exact Hch].
   Qed.
 
   Lemma fresh_nil m root : Mok m -> inm m root = true -> fresh_nodes m root [].
@@ -612,27 +628,33 @@ Section Proofs.
     - destruct (iter_walk_ok w root fuel v Hc Hfuel HF)
         as (s & new & Hw & [Hst Hm] & Hsub & Hroot & Hfresh & _ & Hcalls & Hlog & Hpops).
       rewrite Hw. destruct oneshot.
-      + exists (with_mm A s mempty), new. split; [reflexivity|].
+      + exists (with_mm A s mempty), new. split; [reflexivity|]. cbn [mm stk calls pops log with_mm].
         split; [split; [exact Hst|apply Mok_empty]|]. split; [left; reflexivity|].
         split; [discriminate|]. auto.
       + exists s, new. split; [reflexivity|]. split; [split; assumption|]. split; [right; exact Hsub|].
         split; [intros _; split; [exact Hsub|exact Hroot]|]. auto.
   Qed.
 
+  (* walk_err: the state left when the callback raises at node x.  The stack is empty; a
+     persistent memo keeps the (correct) entries computed before the failure and nothing for
+     x; a one-shot memo is empty.  In both cases the walker is clean again. *)
   Theorem walk_err : forall early oneshot w root fuel, clean w -> enough_fuel root <= fuel ->
     F root = None ->
     exists s x, walk early oneshot fuel w root = (s, Err (ECallback x)) /\
-      Mok (mm s) /\ sub (mm w) (mm s) /\
-      reach root x /\ F x = None /\ inm (mm s) x = false /\
-      (forall c, In c (children x) -> inm (mm s) c = true) /\
-      (forall b y, In (b, y) (stk s) -> reach root y) /\
-      ((x = root /\ stk s = []) \/ (x <> root /\ In (true, root) (stk s))).
+      clean s /\ reach root x /\ F x = None /\ inm (mm s) x = false /\
+      (oneshot = false -> sub (mm w) (mm s) /\ forall c, In c (children x) -> inm (mm s) c = true) /\
+      (oneshot = true -> mm s = mempty).
   Proof.
     intros early oneshot w root fuel Hc Hfuel HF. unfold DagWalk.walk.
     destruct (if early then mm w root else None) as [v'|] eqn:Ee.
     - destruct early; [|discriminate]. destruct Hc as [_ Hm]. apply Hm in Ee. congruence.
-    - destruct (iter_walk_err w root fuel Hc Hfuel HF) as (s & x & Hw & H). rewrite Hw.
-      exists s, x. split; [reflexivity|exact H].
+    - destruct (iter_walk_err w root fuel Hc Hfuel HF) as (s & x & Hw & Hst & M & Sub & Hr & HFx & Hx & Hch).
+      rewrite Hw. destruct oneshot.
+      + exists (with_mm A s mempty), x. split; [reflexivity|]. cbn [mm stk with_mm].
+        split; [split; [exact Hst|apply Mok_empty]|]. split; [exact Hr|]. split; [exact HFx|].
+        split; [reflexivity|]. split; [discriminate|reflexivity].
+      + exists s, x. split; [reflexivity|]. split; [split; assumption|]. split; [exact Hr|].
+        split; [exact HFx|]. split; [exact Hx|]. split; [intros _; split; assumption|discriminate].
   Qed.
 
   (* walk_refines: the answer is the naive recursive fold, whatever the memo contained *)
@@ -646,25 +668,25 @@ Section Proofs.
     intros early oneshot w root fuel s a Hc Hfuel Hw. destruct (F root) as [v|] eqn:HF.
     - destruct (walk_ok early oneshot w root fuel v Hc Hfuel HF) as (s' & new & Hw' & _).
       congruence.
-    - destruct (walk_err early oneshot w root fuel Hc Hfuel HF) as (s' & x & Hw' & _ & _ & Hr & HFx & _).
+    - destruct (walk_err early oneshot w root fuel Hc Hfuel HF) as (s' & x & Hw' & _ & Hr & HFx & _).
       exists x. split; [congruence|auto].
   Qed.
 
   (* walk_memo_inv: every memo entry is the fold's value at its key, before and after any walk
-     (successful or not); a persistent memo only grows; a successful walk leaves a clean walker *)
+     (successful or not); a persistent memo only grows; ANY walk (also a failing one) leaves a
+     clean walker: empty stack, correct memo *)
   Theorem walk_memo_inv : forall early oneshot w root fuel s a, clean w ->
     enough_fuel root <= fuel -> walk early oneshot fuel w root = (s, a) ->
-    Mok (mm s) /\ (oneshot = false -> sub (mm w) (mm s)) /\
-    (forall v, a = Ok v -> clean s) /\ a <> NoFuel.
+    clean s /\ (oneshot = false -> sub (mm w) (mm s)) /\ a <> NoFuel.
   Proof.
     intros early oneshot w root fuel s a Hc Hfuel Hw. destruct (F root) as [v|] eqn:HF.
     - destruct (walk_ok early oneshot w root fuel v Hc Hfuel HF)
         as (s' & new & Hw' & Hcl & _ & Hsub & _).
-      rewrite Hw in Hw'. inversion Hw'; subst. split; [apply Hcl|]. split; [intros Ho; apply Hsub; exact Ho|].
-      split; [intros _ _; exact Hcl|discriminate].
-    - destruct (walk_err early oneshot w root fuel Hc Hfuel HF) as (s' & x & Hw' & Hm & Hsub & _).
-      rewrite Hw in Hw'. inversion Hw'; subst. split; [exact Hm|]. split; [intros _; exact Hsub|].
-      split; [intros v; discriminate|discriminate].
+      rewrite Hw in Hw'. inversion Hw'; subst. split; [exact Hcl|]. split; [intros Ho; apply Hsub; exact Ho|].
+      discriminate.
+    - destruct (walk_err early oneshot w root fuel Hc Hfuel HF) as (s' & x & Hw' & Hcl & _ & _ & _ & Hp & _).
+      rewrite Hw in Hw'. inversion Hw'; subst. split; [exact Hcl|]. split; [intros Ho; apply Hp; exact Ho|].
+      discriminate.
   Qed.
 
   (* walk_calls: the callback is invoked exactly once per distinct reachable un-memoised key;
@@ -775,10 +797,13 @@ Module DagWalkExample.
     let s := fst (walk nat ch sz true false 100 (init nat) 4) in
     calls (fst (walk nat ch sz true false 100 s 3)) = 5.
   Proof. reflexivity. Qed.
-  (* a failing walk: residue on the stack, memo keeps the leaves *)
+  (* a failing walk: the loop stops with a residue, walk drops it; the memo keeps the leaves *)
+  Example ex_err_loop : exists s, run nat ch g (enough_fuel ch 4) (with_stk nat (init nat) [(false, 4)])
+                                  = Failed (ECallback 2) s /\ stk s = [(false, 3); (true, 4)].
+  Proof. eexists. vm_compute. repeat split. Qed.
   Example ex_err : exists s, walk nat ch g true false (enough_fuel ch 4) (init nat) 4
                              = (s, Err (ECallback 2))
-      /\ stk s = [(false, 3); (true, 4)] /\ inm nat (mm s) 0 = true /\ inm nat (mm s) 2 = false.
+      /\ stk s = [] /\ inm nat (mm s) 0 = true /\ inm nat (mm s) 2 = false.
   Proof. eexists. vm_compute. repeat split. Qed.
   Example ex_F_err : F nat ch g 4 = None.
   Proof. reflexivity. Qed.
